@@ -1,6 +1,9 @@
 use crate::geom3::Mesh;
 use crate::{Point3, Result};
+#[cfg(not(feature = "verif"))]
 use std::collections::{HashMap, HashSet};
+#[cfg(feature = "verif")]
+use crate::verif::{HashMap, HashSet};
 
 fn edge_key(i: usize, f: &[u32; 3]) -> (u32, u32) {
     (f[i], f[(i + 1) % 3])
